@@ -492,9 +492,15 @@ func c19Real(c *core.Case, o *core.Outcome) {
 		}
 		// measured durations of 0 ns (coarse clock) are as good as any: the counts are what the output states
 		zeroDur := r.IntN(4) == 0
+		// a soak whose accumulated execution time no longer fits 64-bit nanoseconds (the average is then meaningless,
+		// the counts are still what the output has to state)
+		hugeDur := !zeroDur && r.IntN(5) == 0
 		dur := func() int64 {
 			if zeroDur {
 				return 0
+			}
+			if hugeDur {
+				return int64(1)<<59 + r.Int64N(int64(1)<<61)
 			}
 			return int64(1 + r.IntN(1e9))
 		}
@@ -510,7 +516,7 @@ func c19Real(c *core.Case, o *core.Outcome) {
 				stats.Record(metrics.SuccessResult, dur())
 				s++
 			}
-			if zeroDur && k%5 == 4 {
+			if (zeroDur || hugeDur) && k%5 == 4 {
 				// a progress collection in between, as the periodic runner would do
 				stats.Snapshot(time.Second)
 			}
